@@ -90,7 +90,7 @@ def check(prop, tier, replay_case=None, replay_config=None):
     outdir = os.path.join(common.OUT, prop, tier)
     shutil.rmtree(outdir, ignore_errors=True)
     os.makedirs(outdir, exist_ok=True)
-    evp = os.path.join(common.VERIF, "evidence", f"{prop}.json")
+    evp = os.path.join(common.EVIDENCE, f"{prop}.json")
     if replay_case is None and os.path.exists(evp):
         os.remove(evp)
 
